@@ -75,6 +75,7 @@ type Downstream struct {
 
 	state           *streamState
 	connStatus      *connStatus
+	connOutages     uint64 // connStatus.Outages() of the wire connection the stream is bound to
 	eventDispatcher *eventDispatcher
 }
 
@@ -252,7 +253,7 @@ func (d *Downstream) run() error {
 
 	eg.Go(func() error {
 		d.connStatus.cond.L.Lock()
-		for !d.connStatus.IsWithoutLock(connStatusReconnecting) {
+		for !d.connStatus.DisconnectedSinceWithoutLock(d.connOutages) {
 			select {
 			case <-ctx.Done():
 				d.connStatus.cond.L.Unlock()
